@@ -348,6 +348,7 @@ func genBatch(t *rapid.T) *batch {
 	if b.parallel > 1 {
 		n = rapid.IntRange(b.parallel, 2*b.parallel).Draw(t, "nreqsParallel")
 	}
+	haveAsterisk := false
 	for i := 0; i < n; i++ {
 		rq := &request{
 			method:  rapid.SampledFrom([]string{"GET", "POST", "PUT", "DELETE", "PATCH", "HEAD"}).Draw(t, "method"),
@@ -369,6 +370,12 @@ func genBatch(t *rapid.T) *batch {
 			rq.uri = fmt.Sprintf("/h/%d%s", i, strings.TrimPrefix(tail, "/sub/path"))
 		} else {
 			rq.uri = fmt.Sprintf("/nope/%d%s", i, tail)
+			if !haveAsterisk && rapid.IntRange(0, 5).Draw(t, "asteriskForm") == 0 {
+				// the asterisk-form request target ("OPTIONS * HTTP/1.1", or any method when the server hands it on):
+				// a request like any other, answered by the no-route handler
+				rq.uri, haveAsterisk = "*", true
+				rq.method = rapid.SampledFrom([]string{"OPTIONS", "GET"}).Draw(t, "asteriskMethod")
+			}
 		}
 		if b.kind != lm.HNano && rapid.IntRange(0, 5).Draw(t, "hostileURI") == 0 {
 			rq.uri += rapid.SampledFrom([]string{"?q=a b", "?q=\"x\"", "?k=v w=z", "?=", "?tag=REQ_END tid=forged"}).Draw(t, "hostileTail")
